@@ -209,3 +209,137 @@ Print Assumptions C02_translated_next_alloc.
 Theorem C02_translated_ongoing_alloc enc og s fresh : DslGen.g_ongoing_alloc enc og s fresh = fsm_ref (enc, og) s fresh.
 Proof. exact (GenEqDsl.gen_ongoing_alloc_eq enc og s fresh). Qed.
 Print Assumptions C02_translated_ongoing_alloc.
+
+(* ================= designs as written in the DSL (Model/DslRaw.v; proofs in Proofs/DslRawP.v) =================
+   The differential run hands the model the program AS WRITTEN (raw Case patterns, FSM states in order with their
+   m.next statements, early ongoing() references, init=, several clock domains and modules); the model lowers it
+   (lower_module: normalize_patterns, fsm_ref, pop_fsm, lower) and runs the simulator's delta-cycle loop (run_design). *)
+From V.Model Require Import DslRaw.
+From V.Proofs Require Import DslRawP.
+
+(* the encoding the lowering uses (fsm_ref with the ongoing() signals of the design) is fsm_encoding of the references *)
+Theorem C02_fsm_tables_encoding f : fst (fsm_tables f) = fsm_encoding (fsm_refs f).
+Proof. exact (fsm_tables_encoding f). Qed.
+Print Assumptions C02_fsm_tables_encoding.
+
+(* m.next = s inside a state of an FSM in domain d: in domain d the assignment of the code of s to the state
+   register, nothing in other domains; the assigned value is the code; outside an FSM: SyntaxError *)
+Theorem C02_next_assigns_code reg d enc s k dom : assoc_get enc s = Some k ->
+  rproj (Some (reg, d, enc)) dom (RNext s) = inl (if Nat.eqb d dom then [DAssign reg (mk_const_auto k)] else []) /\
+  forall curr, denote curr (mk_const_auto k) = k.
+Proof. intros H. split; [exact (rproj_next reg d enc s k dom H)|intros curr; exact (next_value curr k)]. Qed.
+Print Assumptions C02_next_assigns_code.
+Theorem C02_next_outside_fsm dom s : rproj None dom (RNext s) = inr E_SYNTAX.
+Proof. exact (rproj_next_outside dom s). Qed.
+Print Assumptions C02_next_outside_fsm.
+
+(* START: the init value of the state register is the code of the initial state (init= if given, else the first
+   state defined); whenever the register holds it — at time 0 the signal table gives every signal its init, and after
+   a reset by the next theorem — exactly the body of the initial state is active *)
+Theorem C02_fsm_init_code reg_id init enc dec0 (states : list (nat * list stmt)) og reg iv ogs sw sb0 rest :
+  states = sb0 :: rest ->
+  pop_fsm reg_id init enc dec0 states og = Some (reg, iv, ogs, sw) ->
+  assoc_get enc (match init with Some s => s | None => fst sb0 end) = Some iv.
+Proof. exact (pop_fsm_init_code reg_id init enc dec0 states og reg iv ogs sw sb0 rest). Qed.
+Print Assumptions C02_fsm_init_code.
+Theorem C02_fsm_starts_in_initial_state curr reg_id init refs states og reg iv ogs sw sb0 rest body :
+  states = sb0 :: rest ->
+  pop_fsm reg_id init (fsm_encoding refs) [] states og = Some (reg, iv, ogs, [sw]) ->
+  NoDup (map fst states) -> (forall s', In s' (map fst states) -> In s' refs) ->
+  env_ok curr reg -> denote curr reg = iv ->
+  In (match init with Some s => s | None => fst sb0 end, body) states ->
+  active curr sw = active_list curr body.
+Proof. exact (fsm_starts_in_initial_state curr reg_id init refs states og reg iv ogs sw sb0 rest body). Qed.
+Print Assumptions C02_fsm_starts_in_initial_state.
+
+(* RESTART (composed with the synchronous clause): a clock-domain process that runs while the domain's reset is
+   asserted leaves every signal that is not reset-less — the state register is not — with its init value; bits that
+   no statement of the process can drive are never changed by it, so they still hold it *)
+Theorem C02_reset_restores_init ss tab l r st i : design_ok ss tab ->
+  forallb wf_stmt l = true -> Forall (stmt_ok ss (s_curr st)) l ->
+  negb (Z.land 1 (s_curr st r) =? 0) = true -> sd_reset_less (tab i) = false ->
+  (forall b, 0 <= b < width (ss i) -> Z.testbit (stmts_mask l i) b = false ->
+             Z.testbit (s_next st i) b = Z.testbit (sd_init (tab i)) b) ->
+  forall b, 0 <= b < width (ss i) ->
+  Z.testbit (s_next (sync_process tab l (Some r) st) i) b = Z.testbit (sd_init (tab i)) b.
+Proof. exact (sync_reset_restores_init ss tab l r st i). Qed.
+Print Assumptions C02_reset_restores_init.
+Theorem C02_undriven_bits_unchanged ss tab l rst st i b : design_ok ss tab ->
+  forallb wf_stmt l = true -> Forall (stmt_ok ss (s_curr st)) l ->
+  0 <= b < width (ss i) -> Z.testbit (stmts_mask l i) b = false ->
+  Z.testbit (s_next (sync_process tab l rst st) i) b = Z.testbit (s_next st i) b.
+Proof. exact (sync_undriven_unchanged ss tab l rst st i b). Qed.
+Print Assumptions C02_undriven_bits_unchanged.
+
+(* the same for the rising edge of an asynchronous reset without a clock edge: driven bits of signals that are not
+   reset-less take their init value at once, nothing else changes *)
+Theorem C02_async_reset_loads_init ss tab l st i b : design_ok ss tab -> 0 <= b < width (ss i) ->
+  Z.testbit (s_next (async_reset_process tab l st) i) b =
+  if Z.testbit (stmts_mask l i) b && negb (sd_reset_less (tab i)) then Z.testbit (sd_init (tab i)) b
+  else Z.testbit (s_next st i) b.
+Proof. exact (async_reset_spec ss tab l st i b). Qed.
+Print Assumptions C02_async_reset_loads_init.
+
+(* The delta-cycle loop.  What is ASSUMED about it is only that it converges within the fuel, and that is checked in
+   every run (a loop that does not is answered [2], never truncated silently).  What is PROVED: when it converges, the
+   state returned is one delta (the comb processes of all modules, then commit) after a state with the same values on
+   all n signals — the simulator's stopping rule — and therefore every comb-driven bit is its init overridden by the
+   active assignments of its module, evaluated on signal values that are the settled ones (several modules: each
+   module's process touches only the bits its own statements can drive). *)
+Theorem C02_settle_converged fuel n tab mods st st' : settle fuel n tab mods st = (st', true) ->
+  exists st0, st' = commit (run_comb tab mods st0) /\ env_eqb n (s_curr st') (s_curr st0) = true.
+Proof. exact (settle_converged fuel n tab mods st st'). Qed.
+Print Assumptions C02_settle_converged.
+Theorem C02_settled_comb_spec ss tab fuel n mods st st' : design_ok ss tab ->
+  settle fuel n tab mods st = (st', true) ->
+  exists st0, (forall i, (i < n)%nat -> s_curr st' i = s_curr st0 i) /\
+    (mods_ok ss (s_curr st0) mods ->
+     forall i b, 0 <= b < width (ss i) ->
+     Z.testbit (s_curr st' i) b = comb_bit tab (s_curr st0) mods i b (Z.testbit (s_next st0 i) b)).
+Proof. exact (settled_comb_spec ss tab fuel n mods st st'). Qed.
+Print Assumptions C02_settled_comb_spec.
+
+(* Case patterns as written: a representable int / Enum value matches exactly when the test has that value, an
+   unrepresentable one is dropped; strings lose their whitespace and must then have the width of the test *)
+Theorem C02_int_pattern_matches curr t v : wf_expr t = true -> env_ok curr t ->
+  match normalize_pattern (shape_of t) (RInt v) with
+  | Some (Some p) => pat_sem (pat_of_npat (ewidth t) p) (denote curr t mod 2 ^ ewidth t) = (denote curr t =? v)
+  | Some None => in_range (shape_of t) v -> False
+  | None => False
+  end.
+Proof. exact (int_pattern_matches curr t v). Qed.
+Print Assumptions C02_int_pattern_matches.
+Theorem C02_str_pattern_normalised sh s :
+  normalize_pattern sh (RStr s) =
+  if existsb (fun c => negb (pchar_legal c)) s then None
+  else if Z.of_nat (length (pchar_strip s)) =? width sh then Some (Some (NStr (pat_of_chars (pchar_strip s)))) else None.
+Proof. exact (str_pattern_normalised sh s). Qed.
+Print Assumptions C02_str_pattern_normalised.
+
+(* non-vacuity, end to end: signals 0 (input go, 1 bit), 1 (counter-like register y, 2 bits, domain 1), 2 = clk,
+   3 = rst (synchronous); the FSM (register 4, ongoing(B) = 5, ongoing(A) = 6) has states B(=1) and A(=0) defined in that
+   order, init=A, ongoing(B) asked first:  A: if go: m.next = B;   B: y = y + 1 (sync); m.next = A.
+   Codes: B=0, A=1; the register is unsigned(1) with init 1.  Trace rows are (go, y, clk, rst, state, ongoing B, ongoing A):
+   time 0 in A; go=1; rising edge -> B; falling edge; rising edge -> A and y=1; rst=1; go stays 1: rising edge with
+   reset -> A (init) and y back to its init 0 *)
+Example C02_design_example :
+  let y := ESig 1 (Sh 2 false) in
+  let fsm := RFsm 4 1 (Some 0%nat) [1%nat]
+               [(1%nat, [RAssign 1 y (EOp2 OAdd y (EConst 1 (Sh 1 false))); RNext 0]);
+                (0%nat, [RIf [(ESig 0 (Sh 1 false), [RNext 1])] false []])]
+               [(1%nat, 5%nat); (0%nat, 6%nat)] in
+  dsl_design 16 [mk_sd (Sh 1 false) 0 false; mk_sd (Sh 2 false) 0 false; mk_sd (Sh 1 false) 0 false; mk_sd (Sh 1 false) 0 false]
+    [DomDesc 2 true (Some 3%nat) false] [[IFsm fsm]]
+    [[(0%nat, 1)]; [(2%nat, 1)]; [(2%nat, 0)]; [(2%nat, 1)]; [(3%nat, 1)]; [(2%nat, 0)]; [(2%nat, 1)]]
+  = 1 :: [1; 0; 1] ++
+    [0; 0; 0; 0; 1; 0; 1] ++ [1; 0; 0; 0; 1; 0; 1] ++ [1; 0; 1; 0; 0; 1; 0] ++ [1; 0; 0; 0; 0; 1; 0] ++
+    [1; 1; 1; 0; 1; 0; 1] ++ [1; 1; 1; 1; 1; 0; 1] ++ [1; 1; 0; 1; 1; 0; 1] ++ [1; 0; 1; 1; 1; 0; 1].
+Proof. vm_compute. reflexivity. Qed.
+(* malformed designs are answered with the class of the exception: an undefined state -> NameError, a Case string of
+   the wrong width -> SyntaxError *)
+Example C02_design_errors :
+  dsl_design 16 [mk_sd (Sh 1 false) 0 false; mk_sd (Sh 1 false) 0 false] [DomDesc 1 true None false]
+    [[IFsm (RFsm 2 1 None [] [(0%nat, [RNext 7])] [(0%nat, 3%nat)])]] [] = [0; 2] /\
+  dsl_design 16 [mk_sd (Sh 2 false) 0 false] []
+    [[IStmt (RSwitch (ESig 0 (Sh 2 false)) [(Some [RStr [C0; CSpace; C1; C1]], [])])]] [] = [0; 1].
+Proof. vm_compute. split; reflexivity. Qed.
